@@ -3,6 +3,7 @@ package known
 import (
 	"encoding/json"
 	"regexp"
+	"strconv"
 	"strings"
 
 	"verifharness/model"
@@ -185,7 +186,8 @@ func init() {
 	// documented < (X+1).0.0. Pinned by hex/range_test.go ("Elixir
 	// compatibility - out of range": ~> 1.14 must reject 1.15.7).
 	// Predicate (C05 case = [kind, probe, args]): pessimistic operator on a
-	// two-component base whose minor is not zero.
+	// two-component base whose minor is not zero, and a probe in the disputed
+	// band X.(Y+1).0 <= probe < (X+1).0.0.
 	register("hex.pessimistic_two_part_nonzero_minor", func(c Case) bool {
 		if c.Eco != "hex" || len(c.Inputs) < 3 || c.Inputs[0] != "pess" {
 			return false
@@ -194,22 +196,79 @@ func init() {
 		if json.Unmarshal([]byte(c.Inputs[2]), &args) != nil || len(args) != 3 {
 			return false
 		}
-		return strings.TrimLeft(args[1], "0") != ""
+		if strings.TrimLeft(args[1], "0") == "" {
+			return false
+		}
+		// only the disputed band: X.(Y+1).0 (its pre-releases included) up to (X+1).0.0 exclusive; elsewhere
+		// go-univers and the documentation agree and the construct stays checked
+		x, err1 := strconv.Atoi(args[0])
+		y, err2 := strconv.Atoi(args[1])
+		head, _ := numericHead(strings.TrimPrefix(strings.TrimSpace(c.Inputs[1]), "v"))
+		hp := strings.Split(head, ".")
+		if err1 != nil || err2 != nil || len(hp) != 3 {
+			return true
+		}
+		maj, e1 := strconv.Atoi(hp[0])
+		mnr, e2 := strconv.Atoi(hp[1])
+		if e1 != nil || e2 != nil {
+			return true
+		}
+		return maj == x && mnr >= y+1
 	})
 
 	// gem: '~>' on a pre-release base keeps all numeric segments of the base
 	// (~> 1.0.0.rc1 is < 1.0.1) where Gem::Requirement bumps (< 1.1). Pinned by
 	// gem/range_test.go "pessimistic prerelease patch bump". Predicate: the
-	// pessimistic construct has a pre-release argument.
+	// pessimistic construct has a pre-release argument and the probe lies in
+	// the disputed band, from the next "patch" of the base's numeric segments
+	// (its pre-releases included) up to the documented upper bound (exclusive),
+	// judged by the Gem::Version reference model. Below and above that band go-univers and
+	// RubyGems agree and the construct stays checked.
 	register("gem.pessimistic_prerelease_base", func(c Case) bool {
 		if c.Eco != "gem" || len(c.Inputs) < 3 || c.Inputs[0] != "pess" {
 			return false
 		}
 		var args []string
-		if json.Unmarshal([]byte(c.Inputs[2]), &args) != nil || len(args) < 2 {
+		if json.Unmarshal([]byte(c.Inputs[2]), &args) != nil || len(args) < 2 || args[len(args)-1] == "" {
 			return false
 		}
-		return args[len(args)-1] != ""
+		parts := args[:len(args)-1]
+		for _, p := range parts {
+			if p == "" || strings.Trim(p, "0123456789") != "" {
+				return true // not the numeric shape the band is defined for: whole construct
+			}
+		}
+		if len(parts) < 2 {
+			return false // one numeric segment: nothing is dropped, no dispute
+		}
+		bump := func(xs []string) string {
+			ys := append([]string{}, xs...)
+			n, _ := strconv.Atoi(ys[len(ys)-1])
+			ys[len(ys)-1] = strconv.Itoa(n + 1)
+			return strings.Join(ys, ".")
+		}
+		lo, hi := bump(parts), bump(parts[:len(parts)-1])
+		probe := strings.TrimSpace(c.Inputs[1])
+		if !model.GemValid(probe) {
+			return true
+		}
+		// the band starts with the pre-releases of lo: the probe's numeric prefix is compared with lo
+		var prefix []string
+		for _, seg := range strings.Split(strings.ReplaceAll(probe, "-", ".pre."), ".") {
+			if seg == "" || strings.Trim(seg, "0123456789") != "" {
+				break
+			}
+			prefix = append(prefix, seg)
+		}
+		if len(prefix) == 0 {
+			return true
+		}
+		c1, ok1 := model.GemCompare(strings.Join(prefix, "."), lo)
+		c2, ok2 := model.GemCompare(probe, hi)
+		if !ok1 || !ok2 {
+			return true // the two readings of Gem::Version disagree on this probe: not decidable, stays excluded
+		}
+		return c1 >= 0 && c2 < 0
 	})
 
 	// pypi: the local version label is ignored by Compare. Pinned by
